@@ -44,6 +44,7 @@ func c11IsName(s string) bool {
 }
 
 // every foreign name becomes a Sysl Name token that decodes back to it
+//
 //verif:shard-quick 16 6
 //verif:shard-thorough 16 8
 func Harness_C11_SafeName() {
